@@ -6,7 +6,7 @@ ID=$1; CK=${2:-$1}; TO=${3:-1800}
 ISO=/root/scratch/iso/$ID.$CK; rm -rf $ISO; mkdir -p $ISO /root/scratch/seedruns
 if [ -n "${SEED_BASE:-}" ]; then mkdir -p $ISO/repo && git -C /repo archive $SEED_BASE | tar -x -C $ISO/repo; else rsync -a --exclude target --exclude .git /repo/ $ISO/repo/; fi
 rsync -a --exclude target --exclude .git --exclude replays /verif/ $ISO/verif/
-(cd $ISO/repo && git apply /verif/seeded/$ID/patch.diff) || { echo "patch failed"; exit 9; }
+(cd $ISO/repo && git apply ${SEED_PATCH:-/verif/seeded/$ID/patch.diff}) || { echo "patch failed"; exit 9; }
 (cd $ISO/verif && VERIF_REPO=$ISO/repo MIRSE_SCRATCH=$ISO/mirse ORACLE_TARGET=$ISO/otarget timeout $TO ./check $CK) > /root/scratch/seedruns/$ID.$CK.log 2>&1; rc=$?
 cp $ISO/verif/evidence/$CK.json /root/scratch/seedruns/$ID.$CK.evidence.json 2>/dev/null
 rm -rf /root/scratch/seedruns/$ID.$CK.replays; cp -r $ISO/verif/replays/$CK /root/scratch/seedruns/$ID.$CK.replays 2>/dev/null
